@@ -13,7 +13,7 @@ def run(ctx):
     ctx.rule("c35: a fresh world per case (height 40-79, 4 blocks per session, this node + 2 validators on chain 0001, application with chains 0001/0021 and 600-614 relays, client key, token signed by the app, proof signed by the client) and exactly one of 75 alterations: "
              "token signature/version/app key/client key (with and without re-signing), client signature, payload/request hash/meta, servicer key, chain (unhosted, not of the app, malformed), session height (+-1, previous session, 0, negative, argument mismatch), block height at and beyond the allowance, entropy, "
              "application absent / absent only at session height / absent only now / unstaking / jailed / unstaked with zero relays / tiny allowance / too many chains / no chains, evidence sealed / duplicate / at the allowance / partially filled, node outside the session, too few nodes, node jailed now, missing blocks; "
-             "multi-step sequences on ONE servicer's session cache (rejected relay then identical retry, session pre-cached as HandleDispatch/HandleChallenge leave it, member served then non-member addressed behind the same cache) through Relay.Validate and through real keeper.HandleDispatch/HandleRelay; a quarter as many cases again through keeper.HandleRelay with ClientSessionSyncAllowance 0..2 (tolerance, storage, execution, signed response). Cases that end in log.Fatalf are run in a child process. non-trivial = served; distinct = distinct trace line")
+             "multi-step sequences on ONE servicer's session cache (rejected relay then identical retry, session pre-cached as HandleDispatch/HandleChallenge leave it, member served then non-member addressed behind the same cache) through Relay.Validate and through real keeper.HandleDispatch/HandleRelay; application-key spellings (upper / mixed-case hex of the same key bytes, token and proof re-signed by the legitimate keys; spellings ground until a servicer OUTSIDE the application's session is inside the session derived from the spelled key, members kept in / put out, canonical relay first on the same cache) through Relay.Validate and keeper.HandleRelay - 'served' with a non-canonical key text is judged by the spec (served-noncanonical-app-key); a quarter as many cases again through keeper.HandleRelay with ClientSessionSyncAllowance 0..2 (tolerance, storage, execution, signed response). Cases that end in log.Fatalf are run in a child process. non-trivial = served; distinct = distinct trace line")
     ctx.trust("ed25519 verification, sha3-256 over JSON, address derivation and NewSession's node selection are oracle data computed by the harness with the real functions",
               "PosKeeper/AppsKeeper/PocketKeeper are stubs (their answers depend only on the context height); sdk.Ctx.PrevCtx is stubbed by a table of available heights")
     ctx.assume("unforgeability of ed25519 (not provable)", "the apps/nodes keepers return what is in the stores at the context's height (C09)")
